@@ -15,6 +15,7 @@ func genCfg(t *rapid.T) sim.Config {
 		Soft:      rapid.Bool().Draw(t, "soft"),
 		SplitSize: rapid.SampledFrom([]int{0, 5, 64, 5, 64, -1}).Draw(t, "split"),
 		WriterBuf: rapid.SampledFrom([]int{0, 1, 40, 1}).Draw(t, "wbuf"),
+		AppendEnc: rapid.IntRange(0, 3).Draw(t, "appendenc") == 0,
 	}
 }
 
